@@ -114,14 +114,12 @@ Qed.
 
 Lemma key_le_preorder k : preorder (key_le k).
 Proof.
-  destruct k as [s| |].
-  - apply (preorder_of_lt (fun x y => pv_ltb (keyval (KMeta s) x) (keyval (KMeta s) y))).
+  destruct (match k with KDefault => true | _ => false end) eqn:D.
+  - destruct k; try discriminate. apply (preorder_of_lt elem_ltb); [apply elem_ltb_asym | apply elem_ltb_negtrans].
+  - assert (E : key_le k = fun x y => negb (pv_ltb (keyval k y) (keyval k x))) by (destruct k; try reflexivity; discriminate).
+    rewrite E. apply (preorder_of_lt (fun x y => pv_ltb (keyval k x) (keyval k y))).
     + intros a b. apply pv_ltb_asym.
     + intros a b c. apply pv_ltb_negtrans.
-  - apply (preorder_of_lt (fun x y => pv_ltb (keyval KLen x) (keyval KLen y))).
-    + intros a b. apply pv_ltb_asym.
-    + intros a b c. apply pv_ltb_negtrans.
-  - apply (preorder_of_lt elem_ltb); [apply elem_ltb_asym | apply elem_ltb_negtrans].
 Qed.
 Lemma dir_preorder r k : preorder (dir r (key_le k)).
 Proof. destruct r; cbn [dir]; [apply flip_preorder|]; apply key_le_preorder. Qed.
